@@ -81,6 +81,16 @@ def step (_ : Unit) (ws : List String) : Unit × String :=
       let size := Check.checkSize id
       ((), s!"{size} {if sup then 1 else 0} {hexOfBytes (Check.run impl id state0 ps)}")
     | _, _ => ((), "bad-op")
+  -- other build configurations (harness/c14_cfg_main.c, a fresh process per line): pieces chained from a possibly
+  -- non-zero initial value (first calls of the process), one call, the same call again — all the reference value
+  | "cfg32" :: ini :: pieces | "cfgsmall32" :: ini :: pieces =>
+    match ini.toNat?, pieces.mapM bytesOfHex with
+    | some i, some ps => let r := (crc32Ref ps.flatten (BitVec.ofNat 32 i)).toNat; ((), s!"{r} {r} {r}")
+    | _, _ => ((), "bad-op")
+  | "cfg64" :: ini :: pieces | "cfgsmall64" :: ini :: pieces =>
+    match ini.toNat?, pieces.mapM bytesOfHex with
+    | some i, some ps => let r := (crc64Ref ps.flatten (BitVec.ofNat 64 i)).toNat; ((), s!"{r} {r} {r}")
+    | _, _ => ((), "bad-op")
   | ["small32", ini, hx] =>
     match ini.toNat?, bytesOfHex hx with
     | some i, some bs => ((), s!"{(crcSmall P32 bs (BitVec.ofNat 32 i)).toNat}")
